@@ -111,8 +111,8 @@ def run(ctx):
         ctx.check(r[0] == "call" and r[1].endswith("with_registers_and_hash") and r[2][1] == want and r[2][0] == P(1, "b"), "R11-alloc-terms", hw.key + ":registers", hw,
                   "registers allocated as vec![0; 1 << b]", "HyperLogLog::with_hash allocates %s, documented size is 2^b registers" % fmt(r))
     expected_clear = {
-        "<filters::cuckoofilter::CuckooFilter as filters::Filter[T]>::clear": ("table", lambda v: v[0] == "call" and v[1].endswith("with_fill") and v[2][0][0] == "call" and v[2][0][1].endswith("element_bits") and v[2][0][2] == (S("table"),) and v[2][1][0] == "call" and v[2][1][1].endswith("len") and v[2][1][2] == (S("table"),)),
-        "<filters::quotientfilter::QuotientFilter as filters::Filter[T]>::clear": ("remainders", lambda v: v[0] == "call" and v[1].endswith("with_fill") and v[2][0][2] == (S("remainders"),) and v[2][1][2] == (S("remainders"),) and v[2][0][1].endswith("element_bits") and v[2][1][1].endswith("len")),
+        "<filters::cuckoofilter::CuckooFilter as filters::Filter[T]>::clear": ("table", lambda v: v[0] == "call" and v[1].rsplit("::", 1)[-1] == "with_fill" and v[2][0][0] == "call" and v[2][0][1].endswith("element_bits") and v[2][0][2] == (S("table"),) and v[2][1][0] == "call" and v[2][1][1].rsplit("::", 1)[-1] == "len" and v[2][1][2] == (S("table"),)),
+        "<filters::quotientfilter::QuotientFilter as filters::Filter[T]>::clear": ("remainders", lambda v: v[0] == "call" and v[1].rsplit("::", 1)[-1] == "with_fill" and v[2][0][2] == (S("remainders"),) and v[2][1][2] == (S("remainders"),) and v[2][0][1].endswith("element_bits") and v[2][1][1].rsplit("::", 1)[-1] == "len"),
         "countminsketch::CountMinSketch::clear": ("table", lambda v: v[0] == "call" and v[1].endswith("from_elem") and v[2][1] == mk("Mul", S("w"), S("d"))),
         "hyperloglog::HyperLogLog::clear": ("registers", lambda v: v[0] == "call" and v[1].endswith("from_elem") and v[2][1] == ("call", "std::vec::Vec::len", (S("registers"),))),
     }
@@ -228,7 +228,7 @@ def classify_growth(ctx, adt, m, fld, e, i, evs, facts, cf):
     # in-place update of an existing entry (re-keying): insert after remove handled above
     # (c) size check after the push that drains: on this path either len <= max fact, or a later drain of the same field
     for b, a in weak:      # len(container) <= config
-        if a[0] == "field" and a[1][:2] == ("param", 1) and a[2] in cf and b[0] == "call" and b[1].endswith("len") and b[2] and b[2][0] == ("field", selfp, fld):
+        if a[0] == "field" and a[1][:2] == ("param", 1) and a[2] in cf and b[0] == "call" and b[1].rsplit("::", 1)[-1] == "len" and b[2] and b[2][0] == ("field", selfp, fld):
             return ("size check %s <= %s after the push" % (fmt(b), fmt(a)), "")
     for e2 in evs[i + 1:]:
         if e2["kind"] == "write" and e2["root"] == SELF and self_field(e2) == fld and is_drain(e2):
